@@ -269,8 +269,38 @@ def shard_derived(args):
     return acc.export()
 
 
+def shard_exotic(args):
+    tier, seed, idx = args
+    acc = Acc(seed=seed)
+    specs = C.exotic_specs()
+    for si in range(idx, len(specs), 8):
+        spec = specs[si]
+        f = C.build(spec)
+        want = C.spec_cells(spec)
+        case = {"kind": "exotic", "f": C.show_spec(spec)}
+        acc.case(True, key=("x", si), sample=case)
+        for rnd in range(2):  # rendered twice: the memoised string must equal the first rendering
+            shown, final, non_sgr, unknown = sgr.interpret(str(f))
+            if shown != want:
+                acc.failure("C01:formatting" if [c for c, _ in shown] == [c for c, _ in want] else "C01:characters", case, "displayed %r" % (shown[:30],))
+            if final != () or non_sgr or unknown:
+                acc.failure("C01:state_not_reset", case, "final %r non-sgr %r" % (final, non_sgr))
+        # every prefix, suffix and middle slice at a run boundary displays exactly its own cells
+        pts = [p_ for p_ in C.boundary_points(spec) if 0 <= p_ <= len(want)]
+        for a in pts[::2]:
+            for b in pts[1::2]:
+                if a <= b:
+                    shown = sgr.interpret(str(f[a:b]))[0]
+                    acc.case(True, key=("xs", si, a, b))
+                    if shown != want[a:b]:
+                        acc.failure("C01:derived_display_differs_from_runs", dict(case, op="f[%d:%d]" % (a, b)), "displayed %r expected %r" % (shown[:20], want[a:b][:20]))
+    return acc.export()
+
+
 def run(ctx):
     rep = Report()
+    for d in ctx.pmap(shard_exotic, [(ctx.tier, ctx.seed, i) for i in range(8)]):
+        rep.merge(d, "long_and_exotic_values")
     grid = [(ctx.tier, ctx.seed, fg, bg) for fg in COL for bg in COL]
     for d in ctx.pmap(shard_singles, grid):
         rep.merge(d, "singles")
@@ -298,7 +328,7 @@ def run(ctx):
 
 def replay(ctx, case):
     acc = Acc()
-    if case.get("kind") == "derived":
+    if case.get("kind") in ("derived", "exotic"):
         return []
     check_value(acc, [(t, k) for t, k in case["runs"]], case, use_pyte=False)
     return [(s, e["cases"][0]["message"]) for s, e in acc.fail.items()]
